@@ -118,6 +118,7 @@ structure Inv (s : Buf) (F : List Nat) (c : Nat) (T : List Nat) (n : Nat) : Prop
   sy : s.syncPt ≤ s.pptr
   sz : s.size + (s.pptr - s.syncPt) = n
   layout : Layout s (F ++ [c]) T
+  tdom : ∀ q, (s.tmem q).isSome ↔ q ∈ T
 
 theorem perm_step1 {a F T : List Nat} {c p : Nat} (h : a.Perm (F ++ c :: T)) :
     (a ++ [p]).Perm ((F ++ [c]) ++ p :: T) := by
@@ -161,7 +162,7 @@ theorem Inv.step_store {s : Buf} {F T : List Nat} {c n : Nat} (h : Inv s F c T n
     simp [h.nofault, h.ep, hlt]
   refine ⟨?_, hp⟩
   rw [hp]
-  refine ⟨h.nofault, h.perm, h.fresh, h.nodup, h.cur, h.ep, by simp, by simp; omega, ?_, ?_, ?_, ?_⟩
+  refine ⟨h.nofault, h.perm, h.fresh, h.nodup, h.cur, h.ep, by simp, by simp; omega, ?_, ?_, ?_, ?_, h.tdom⟩
   · have := h.total; simp; omega
   · have := h.sy; simp; omega
   · have := h.sz; have := h.sy; simp; omega
@@ -215,7 +216,7 @@ theorem Inv.step_over_inl {s : Buf} {F T : List Nat} {c n : Nat} (h : Inv s F c 
     have hps' : s.ps ≠ 0 := by omega
     simp [Buf.pre, h.nofault, hps']
   rw [hput]
-  refine ⟨⟨h.nofault, ?_, ?_, ?_, rfl, rfl, by simp, by simp [Buf.pre]; omega, ?_, by simp, ?_, ?_⟩, rfl, rfl, rfl⟩
+  refine ⟨⟨h.nofault, ?_, ?_, ?_, rfl, rfl, by simp, by simp [Buf.pre]; omega, ?_, by simp, ?_, ?_, h.tdom⟩, rfl, rfl, rfl⟩
   · exact perm_step1 h.perm
   · intro x hx
     simp only [Buf.pre, List.mem_append, List.mem_singleton] at hx ⊢
@@ -279,7 +280,14 @@ theorem Inv.step_over_first {s : Buf} {F T : List Nat} {c n : Nat} (h : Inv s F 
     by_cases hq : q = s.nextId + 1 <;> simp [hq, TMem.set]
   have hn := h.total
   rw [hput]
-  refine ⟨⟨h.nofault, ?_, ?_, ?_, rfl, rfl, by simp, by simp [Buf.pre]; omega, ?_, by simp, ?_, ?_⟩, rfl, rfl, rfl⟩
+  have htd : ∀ q, ((fun q => if q = s.nextId + 1 then some (⟨none, [c, s.nextId]⟩ : TablePage) else s.tmem q) q).isSome
+      ↔ q ∈ [s.nextId + 1] := by
+    intro q
+    have := h.tdom q
+    by_cases hq : q = s.nextId + 1
+    · simp [hq]
+    · simp [hq, this, hT]
+  refine ⟨⟨h.nofault, ?_, ?_, ?_, rfl, rfl, by simp, by simp [Buf.pre]; omega, ?_, by simp, ?_, ?_, htd⟩, rfl, rfl, rfl⟩
   · have := perm_step2 (t := s.nextId + 1) (p := s.nextId) h.perm
     simpa [hT] using this
   · intro x hx
@@ -351,8 +359,15 @@ theorem Inv.step_over_ent {s : Buf} {F T : List Nat} {c n : Nat} (h : Inv s F c 
     have hps' : s.ps ≠ 0 := by omega
     simp [Buf.pre, h.nofault, hp, hm, h2, hps', hh8, hp8]
   have hn := h.total
+  have htd : ∀ q, ((s.tmem.set tl ⟨none, e ++ [s.nextId]⟩) q).isSome ↔ q ∈ T := by
+    intro q
+    have := h.tdom q
+    by_cases hq : q = tl
+    · have hmem : tl ∈ T := List.mem_of_getLast? hl
+      simp [TMem.set, hq, hmem]
+    · simp [TMem.set, hq, this]
   rw [hput]
-  refine ⟨⟨h.nofault, ?_, ?_, ?_, rfl, rfl, by simp, by simp [Buf.pre]; omega, ?_, by simp, ?_, ?_⟩, rfl, rfl, rfl⟩
+  refine ⟨⟨h.nofault, ?_, ?_, ?_, rfl, rfl, by simp, by simp [Buf.pre]; omega, ?_, by simp, ?_, ?_, htd⟩, rfl, rfl, rfl⟩
   · exact perm_step1 h.perm
   · intro x hx
     simp only [Buf.pre, List.mem_append, List.mem_singleton] at hx ⊢
@@ -421,8 +436,19 @@ theorem Inv.step_over_tbl {s : Buf} {F T : List Nat} {c n : Nat} (h : Inv s F c 
     have hne2 : s.nextId + 1 ≠ tl := by omega
     simp [Buf.pre, h.nofault, TMem.set, h2, hps', hh8, hp8, hne2]
   have hn := h.total
+  have htd : ∀ q, ((((s.tmem.set (s.nextId + 1) ⟨none, []⟩).set tl ⟨some (s.nextId + 1), e⟩).set (s.nextId + 1)
+      ⟨none, [s.nextId]⟩) q).isSome ↔ q ∈ T ++ [s.nextId + 1] := by
+    intro q
+    have := h.tdom q
+    have hmem : tl ∈ T := List.mem_of_getLast? hl
+    by_cases hq : q = s.nextId + 1
+    · simp [TMem.set, hq]
+    · by_cases hq2 : q = tl
+      · subst hq2
+        simp [TMem.set, hq, hmem]
+      · simp [TMem.set, hq, hq2, this]
   rw [hput]
-  refine ⟨⟨h.nofault, ?_, ?_, ?_, rfl, rfl, by simp, by simp [Buf.pre]; omega, ?_, by simp, ?_, ?_⟩, rfl, rfl, rfl⟩
+  refine ⟨⟨h.nofault, ?_, ?_, ?_, rfl, rfl, by simp, by simp [Buf.pre]; omega, ?_, by simp, ?_, ?_, htd⟩, rfl, rfl, rfl⟩
   · exact perm_step2 h.perm
   · intro x hx
     simp only [List.mem_append, List.mem_singleton] at hx ⊢
@@ -505,7 +531,7 @@ theorem begin_putc (ps a0 : Nat) (hps : 0 < ps) :
     simp [Buf.begin, Buf.sync, Buf.alloc, Buf.storePages, hK, hps', Ne.symm hK'']
   rw [hput]
   refine ⟨⟨rfl, by simp, by simp, by simp, rfl, rfl, by simp, by simp [Buf.begin]; omega, by simp, by simp,
-    by simp [Buf.begin], ?_⟩, rfl, rfl, rfl⟩
+    by simp [Buf.begin], ?_, by simp [Buf.begin]⟩, rfl, rfl, rfl⟩
   exact Layout.inl (by simp; omega) rfl rfl rfl rfl
 
 end Babylon.Log
